@@ -142,6 +142,24 @@ template <class G> void run_c01(vf::Report& R) {
       if (!R.judge("route_operator_mul", same ? 0 : g.diffM(vf::Mof(Z2), vf::Mof(Z), lin), B::B1, key)) R.fail("route_operator_mul", "operator*/" + key, 1, B::B1, dd + "}");
       if (xa.theta != 0 && ya.theta != 0 && distinct.insert(key).second) ++R.nontrivial;
       if ((xa.hemi < 0) != (ya.hemi < 0)) R.count("mixed_hemisphere_pairs");
+      // operands anywhere inside the acceptance band | |q| - 1 | < eps are valid elements: the product must still be the matrix
+      // product (of the normalised rotations) and must itself be valid -- this is what exercises the renormalisation branch
+      if ((i + j) % 5 == 0) {
+        std::vector<char> rm = g.rot_coeff_mask();
+        for (int sgn = -1; sgn <= 1; sgn += 2) {
+          ref::Vec cx = vf::toL(X.coeffs()), cy = vf::toL(Y.coeffs());
+          for (int q = 0; q < g.Rep; ++q) if (rm[q]) { cx(q) *= (1 + sgn * 0.9L * (ref::Real)manif::Constants<S>::eps); cy(q) *= (1 + sgn * 0.9L * (ref::Real)manif::Constants<S>::eps); }
+          G Xb = vf::make_raw<G>(cx), Yb = vf::make_raw<G>(cy);
+          G Zb = Xb.compose(Yb);
+          ++R.transitions;
+          std::string kb = key + (sgn < 0 ? ",band=-0.9eps" : ",band=+0.9eps");
+          ref::Real db = g.diffM(vf::Mof(Zb), vf::Mof(Xb) * vf::Mof(Yb), lin);
+          if (!R.judge("compose_is_matrix_product", db, B::B1, kb)) R.fail("compose_is_matrix_product", "compose/" + kb, db, B::B1, dd + "}");
+          ref::Real nb = vf::norm_dev(Zb);
+          if (!R.judge("compose_valid", nb, B::eps_lib, kb)) R.fail("compose_valid", "compose/" + kb, nb, B::eps_lib, dd + "," + vf::kv("Z", vf::hexvec(Zb.coeffs())) + "}");
+          if (nb != vf::norm_dev(Z)) R.count("band_edge_operands_renormalised_or_drifted");
+        }
+      }
     }
   }
   // ---- associativity on triples
